@@ -117,6 +117,25 @@ theorem rt_calibrationDefinition_norm (F : NumFmt) (d : Nat) (id : CalibrationId
     erw [hm]
     simp only [pure_eq, Parser.pure]
 
+/-- DEFCAL whose body instructions round-trip (to `g i`) at every sufficient fuel -/
+theorem rt_cal_of (F : NumFmt) (d : Nat) (id : CalibrationIdentifier) (body : List Instruction)
+    (g : Instruction → Instruction)
+    (hfin : id.parameters.all finiteLits = true) (hq : id.qubits.all noPlaceholder = true)
+    (hn : id.parameters.all (numTokOk F) = true) (hne : body ≠ [])
+    (hbody : ∀ d', ∀ i ∈ body, (toks F i).length ≤ d' → RT F d' i (g i))
+    (hd : (toks F (.calibrationDefinition id body)).length ≤ d) :
+    RTtop F d (.calibrationDefinition id body)
+      (.calibrationDefinition { id with parameters := id.parameters.map norm } (body.map g)) := by
+  cases d with
+  | zero => simp [toks] at hd
+  | succ d =>
+    have hlen : ∀ i ∈ body, (toks F i).length ≤ d := by
+      intro i hi
+      have := length_calBody_mem F body i hi
+      simp only [toks, List.length_append, List.length_cons, List.length_map] at hd
+      omega
+    exact rt_calibrationDefinition_norm F d id body g hfin hq hn hne (fun i hi => hbody d i hi (hlen i hi)) hd
+
 /-- DEFCAL with a `Parsed` body of one-line kinds -/
 theorem rt_calibrationDefinition (F : NumFmt) (d : Nat) (id : CalibrationIdentifier) (body : List Instruction)
     (hp : parsedInstr (.calibrationDefinition id body) = true) (hk : body.all lineKind = true)
